@@ -332,6 +332,8 @@ def run(ctx):
 
     # ------------------------------------------------------------------ R04.5
     r = ctx.rule("R04.5", "void / self-closing: HTML elements are popped immediately iff void, foreign elements are pushed iff not self-closing", "E-AST", floor=3)
+    from .c16 import clause_void_list
+    clause_void_list(r, idx)
     gsd = idx.one("get_stack_directive", owner="Stack")
     s_ = (str([n.get("s") for n in walk(gsd.node["body"]) if n.get("k") == "If"])).replace(" ", "")
     ifs = [n for n in walk(gsd.node["body"]) if n.get("k") == "If"]
